@@ -73,6 +73,11 @@ func (s *c12State) checkTerm(cs c12Case) {
 			}
 		}()
 		c12UnderShell(envShell, func() {
+			if cs.View != nil {
+				valid, out, temps, action = fzf.VerifTerminalExpandView(cs.Template, cs.ForcePlus, cs.Delim, cs.Printsep, cs.Query,
+					c12ViewHookItems(cs), cs.Cy, order, cs.Prompt, withShell, cs.View.Ansi, cs.View.coloured())
+				return
+			}
 			valid, out, temps, action = fzf.VerifTerminalExpand(cs.Template, cs.ForcePlus, cs.Delim, cs.Printsep, cs.Query,
 				items, cs.Cy, order, cs.Prompt, withShell)
 		})
@@ -90,18 +95,41 @@ func (s *c12State) checkTerm(cs c12Case) {
 	}
 	var cur *c12Item
 	curL := []c12Item{}
+	// what the items are to a placeholder: the lines; with a view, item_text of the lines (Coq spec)
+	asSeen := cs.Items
+	if texts := s.viewTexts(cs); texts != nil {
+		asSeen = make([]c12Item, len(cs.Items))
+		for i, it := range cs.Items {
+			asSeen[i] = c12Item{Idx: it.Idx, Text: texts[i]}
+		}
+	}
 	if cs.Cy >= 0 && cs.Cy < len(cs.Items) {
-		cur = &cs.Items[cs.Cy]
+		cur = &asSeen[cs.Cy]
 		curL = append(curL, *cur)
 	}
 	sel := []c12Item{}
 	onSel := false
 	for _, p := range order {
-		sel = append(sel, cs.Items[p])
+		sel = append(sel, asSeen[p])
 		onSel = onSel || p == cs.Cy
 	}
 	// corr: model buildPlusList ; replacePlaceholder == impl (valid, command line, temp-file contents)
-	mv := c.Model.Call(1210, L(c12Params(cs, action), c12Items(curL), c12Items(sel), Bytes(cs.Template), Strs(temps)))
+	var mv Val
+	if cs.View != nil {
+		// model of the reader's item construction ; Item.AsString ; buildPlusList ; Terminal.replacePlaceholder over the LINES
+		lines := c12ViewLines(cs)
+		curLines, selLines := []Val{}, []Val{}
+		if cs.Cy >= 0 && cs.Cy < len(cs.Items) {
+			curLines = append(curLines, lines[cs.Cy])
+		}
+		for _, p := range order {
+			selLines = append(selLines, lines[p])
+		}
+		mv = c.Model.Call(1224, L(B(cs.View.Ansi), B(cs.View.coloured()), c12Params(cs, action), L(curLines...), L(selLines...),
+			Bytes(cs.Template), Strs(temps)))
+	} else {
+		mv = c.Model.Call(1210, L(c12Params(cs, action), c12Items(curL), c12Items(sel), Bytes(cs.Template), Strs(temps)))
+	}
 	implV := L(B(valid), Bytes(out), Strs(files))
 	if !mv.Equal(implV) {
 		exp := mv.String()
@@ -134,6 +162,7 @@ func (s *c12State) checkTerm(cs c12Case) {
 	rep.Eval(string(key), nontrivial)
 	rep.Sample(cs)
 	rep.Count("kind=term")
+	s.countView(cs, "term")
 	s.countShells(cs)
 	rep.Count(fmt.Sprintf("term:selected=%d", len(sel)))
 	switch {
@@ -160,6 +189,7 @@ type c12LiveObs struct {
 	sel   []c12Item
 	// the reader changed an item text (then the case is not judged)
 	textChanged string
+	listedOther bool // a case with a view: GET / lists a text other than item_text of the line (counted; judged all the same)
 	done        bool
 	words       []string // content of w cut at NUL
 	wordsOK     bool
@@ -210,6 +240,15 @@ func c12LiveArgs(cs c12Case) ([]string, []byte) {
 	if cs.Mode == "preview" || cs.Mode == "change-preview" {
 		args = append(args, "--preview", ":")
 	}
+	if v := cs.View; v != nil {
+		if v.Ansi {
+			args = append(args, "--ansi")
+		}
+		if v.WithNth != "" {
+			args = append(args, "--with-nth", v.WithNth)
+		}
+		args = append(args, v.Opts...)
+	}
 	return args, in.Bytes()
 }
 
@@ -231,12 +270,26 @@ func c12WaitFile(s *Session, path string, d time.Duration) bool {
 }
 
 // runLive drives one session and only observes.
-func c12RunLive(c *Ctx, cs c12Case) (o c12LiveObs) {
+// texts: what each input line is to a placeholder (viewTexts; nil: the line itself)
+func c12RunLive(c *Ctx, cs c12Case, texts []string) (o c12LiveObs) {
 	args, stdin := c12LiveArgs(cs)
 	so := SessionOpts{Args: args, Stdin: stdin}
 	if cs.EnvShell != nil {
 		so.Env = []string{"SHELL=" + *cs.EnvShell} // a later entry wins over the session's default SHELL=/bin/sh
 	}
+	if cs.View != nil {
+		so.Env = append(so.Env, cs.View.Env...)
+	}
+	textOf := func(i int) string {
+		if texts != nil && i < len(texts) {
+			return texts[i]
+		}
+		return cs.Items[i].Text
+	}
+	// a case with a view is judged against item_text of the LINE fzf says is under the cursor / selected (GET / gives the
+	// ordinal): what GET / reports as the text is Item.AsString(t.ansi), the very function the placeholders go through -
+	// the expected text comes from the spec, not from the finder
+	shown := cs.View != nil
 	sess, err := StartSession(c, so)
 	if err != nil {
 		o.infra = "start: " + err.Error()
@@ -263,10 +316,13 @@ func c12RunLive(c *Ctx, cs c12Case) (o c12LiveObs) {
 			o.textChanged = fmt.Sprintf("index %d outside the input", fi.Index)
 			return nil
 		}
-		if fi.Text != cs.Items[fi.Index].Text {
-			o.textChanged = fmt.Sprintf("item %d: fzf holds %q, the input was %q", fi.Index, fi.Text, cs.Items[fi.Index].Text)
+		if shown && fi.Text != textOf(fi.Index) {
+			o.listedOther = true
 		}
-		return &c12Item{Idx: int32(fi.Index), Text: cs.Items[fi.Index].Text}
+		if !shown && fi.Text != textOf(fi.Index) {
+			o.textChanged = fmt.Sprintf("item %d: fzf holds %q, the text of the input line %q is %q", fi.Index, fi.Text, cs.Items[fi.Index].Text, textOf(fi.Index))
+		}
+		return &c12Item{Idx: int32(fi.Index), Text: textOf(fi.Index)}
 	}
 	if st.Current != nil {
 		o.cur = item(*st.Current)
@@ -387,6 +443,12 @@ func (s *c12State) judgeLive(cs c12Case, o c12LiveObs) (*Disagreement, bool, boo
 		return nil, false, false
 	}
 	impl := map[string]interface{}{"finder_state": json.RawMessage(o.state), "command": cs.Mode + ":" + c12LiveCommand(cs)}
+	if cs.View != nil {
+		args, _ := c12LiveArgs(cs)
+		impl["fzf_args"] = args
+		impl["env"] = cs.View.Env
+		impl["text_of_the_item_under_the_cursor"] = o.cur.Text
+	}
 	if !o.done {
 		impl["observed"] = "the command did not run to its end (no done file)"
 		impl["w"] = o.words
@@ -423,6 +485,10 @@ func (s *c12State) countLive(cs c12Case, o c12LiveObs) {
 	rep := s.c.Rep
 	rep.Count("kind=live")
 	rep.Count("live:mode=" + cs.Mode)
+	s.countView(cs, "live")
+	if o.listedOther {
+		rep.Count("live:view: the finder lists a text other than item_text of the line")
+	}
 	s.countShells(cs)
 	if o.cur != nil {
 		on := false
@@ -447,10 +513,11 @@ func (s *c12State) countLive(cs c12Case, o c12LiveObs) {
 func (s *c12State) liveOne(cs c12Case, first *c12LiveObs) {
 	rep := s.c.Rep
 	var o c12LiveObs
+	texts := s.viewTexts(cs)
 	if first != nil {
 		o = *first
 	} else {
-		o = c12RunLive(s.c, cs)
+		o = c12RunLive(s.c, cs, texts)
 	}
 	rep.ImplTraces++
 	// a failing observation is made again, twice, in a session of its own: reported only when it fails every time
@@ -458,12 +525,12 @@ func (s *c12State) liveOne(cs c12Case, first *c12LiveObs) {
 	d, _, nontrivial := s.judgeLive(cs, o)
 	for try := 0; d != nil && d.Name != "no_crash" && try < 2; try++ {
 		rep.Count("live:retries")
-		o = c12RunLive(s.c, cs)
+		o = c12RunLive(s.c, cs, texts)
 		d, _, nontrivial = s.judgeLive(cs, o)
 	}
 	if d == nil && o.infra != "" && first != nil {
 		// infrastructure hiccup in a parallel run: once more, alone
-		o = c12RunLive(s.c, cs)
+		o = c12RunLive(s.c, cs, texts)
 		d, _, nontrivial = s.judgeLive(cs, o)
 	}
 	if d != nil {
@@ -489,6 +556,10 @@ func (s *c12State) runLiveBatch(cases []c12Case) {
 			hi = len(cases)
 		}
 		obs := make([]c12LiveObs, hi-lo)
+		texts := make([][]string, hi-lo)
+		for i := lo; i < hi; i++ {
+			texts[i-lo] = s.viewTexts(cases[i]) // the model is asked here, not from the parallel sessions
+		}
 		var wg sync.WaitGroup
 		sem := make(chan struct{}, 8)
 		for i := lo; i < hi; i++ {
@@ -497,7 +568,7 @@ func (s *c12State) runLiveBatch(cases []c12Case) {
 			go func(i int) {
 				defer wg.Done()
 				defer func() { <-sem }()
-				obs[i-lo] = c12RunLive(s.c, cases[i])
+				obs[i-lo] = c12RunLive(s.c, cases[i], texts[i-lo])
 			}(i)
 		}
 		wg.Wait()
